@@ -890,7 +890,14 @@ func (ex *Exec) sliceOp(st *State, fr *Frame, in *ssa.Slice) Val {
 			cp = max
 		}
 		ex.safe(st, And(Le(IntT(0), lo), Le(lo, hi), Le(hi, s.Cap)), in, "slice bounds out of range")
-		return SliceV{s.Arr, Add(s.Off, lo), Sub(hi, lo), Sub(cp, lo)}
+		noff := Add(s.Off, lo)
+		if _, isNum := lo.numeral(); !isNum && noff.S != s.Off.S && !strings.Contains(noff.S, "(ite ") {
+			// index terms of the new slice, ix(off+lo, k), are also index terms ix(off, lo+k) of the
+			// old one: without this instance quantified facts about the old slice (triggered on
+			// ix(off, _)) are never instantiated for elements reached through the new slice
+			st.Assume(Term{fmt.Sprintf("(forall ((k Int)) (! (= (ix %s k) (ix %s (+ %s k))) :pattern ((ix %s k))))", noff.S, s.Off.S, lo.S, noff.S), SBool})
+		}
+		return SliceV{s.Arr, noff, Sub(hi, lo), Sub(cp, lo)}
 	case *types.Basic: // string
 		b := x.(Term)
 		n := App(SInt, "blen", b)
